@@ -52,6 +52,14 @@ Clauses(o) ==
        \o F(~Has(o.a2r, "RLRP"), "release-is-answered")
        \o F(o.reqErr.type # "none", "normal-exit-raises-nothing")
       ELSE <<>>)
+  \o (IF o.scn = "stop-with-silent-peer" THEN     \* kill() on an association whose peer says nothing more (C13: a stop request always completes)
+          F(~o.stopped, "a-request-to-stop-completes-in-bounded-time")
+      ELSE <<>>)
+  \o (IF o.scn = "late-response-then-release" THEN   \* normal exit while a response is still outstanding: still a release
+          F(LastKind(o.r2a) # "RLRQ" \/ Has(o.r2a, "AB"), "normal-exit-releases")
+       \o F(o.reqErr.type # "none", "normal-exit-raises-nothing")
+       \o F(~o.stopped, "release-completes")
+      ELSE <<>>)
   \o (IF o.scn = "req-exit-error" THEN
           F(~HasF(o.r2a, "AB", <<0, 0>>) \/ Has(o.r2a, "RLRQ"), "exceptional-exit-aborts")
        \o F(o.reqErr.type # "UserError", "the-users-exception-propagates")
